@@ -468,7 +468,7 @@ func c16(p *Prog, r *Report) {
 	const R3 = "C16.receiver-writes-only-by-mutators"
 	const R4 = "C16.spare-capacity-never-read"
 	r.Rule(R1, "exported functions never write (store/copy/append in place) the memory of a byte-slice parameter that is not a documented destination", 60)
-	r.Rule(R2, "append(x, ...) with x loaded from a struct field: every store into that field stores a whole-tail view", 4)
+	r.Rule(R2, "append(x, ...) with x loaded from a struct field: every store into that field stores a whole-tail view", 1)
 	r.Rule(R3, "exported methods write receiver state only via the raw cache, their own mutators, or R2-safe appends", 30)
 	r.Rule(R4, "every slice expression x[lo:hi] on a slice/string reachable from an exported function has hi proved <= len(x) (spare capacity is never read)", 20)
 
